@@ -71,6 +71,9 @@ Proof. induction l as [|x l IH]; cbn [map existsb]; [reflexivity|]. rewrite IH. 
 Lemma existsb_ext' {A} (f g : A -> bool) l : (forall x, f x = g x) -> existsb f l = existsb g l.
 Proof. intros H. induction l as [|x l IH]; cbn [existsb]; [reflexivity|]. rewrite H, IH. reflexivity. Qed.
 
+Lemma Ok_inj {A} (a b : A) : Ok a = Ok b -> a = b.
+Proof. intros H. injection H. auto. Qed.
+
 (* ---- the accumulators ---- *)
 
 Lemma lo_inner_map (f : list Z -> Z) tbl g j :
@@ -179,7 +182,7 @@ Section Classifier.
     destruct (nth_error ge 31) as [g|] eqn:E.
     2:{ apply nth_error_None in E. lia. }
     rewrite lo_inner_map. rewrite result_bit. unfold lo_k. rewrite lo_k_bit.
-    rewrite Z.bits_0, orb_false_l. rewrite existsb_map'. f_equal.
+    rewrite Z.bits_0, orb_false_l. rewrite existsb_map'. apply (f_equal (@Ok bool)).
     apply existsb_ext'. intros row. unfold row_final.
     rewrite (nth_error_nth ge 31 0 E). reflexivity.
   Qed.
@@ -218,10 +221,10 @@ Section Classifier.
     (is_ed_low_order_t tbl ge = Ok true <-> exists row, In row tbl /\ clear_top ge = row).
   Proof.
     intros Hlen Hb. rewrite classifier_eval by assumption. split.
-    - intros H. injection H as H. apply existsb_exists in H as [row [Hin Hbit]].
+    - intros H. apply Ok_inj in H. apply existsb_exists in H as [row [Hin Hbit]].
       exists row. split; [assumption|]. apply row_final_zero; [assumption..|].
       rewrite bit8_pred in Hbit by (apply row_final_byte; assumption). lia.
-    - intros [row [Hin Heq]]. f_equal. apply existsb_exists. exists row. split; [assumption|].
+    - intros [row [Hin Heq]]. apply (f_equal (@Ok bool)). apply existsb_exists. exists row. split; [assumption|].
       rewrite bit8_pred by (apply row_final_byte; assumption).
       apply (row_final_zero ge row Hlen Hin) in Heq. lia.
   Qed.
@@ -283,7 +286,7 @@ Theorem low_order_spec ge : (length ge = 32)%nat -> all_bytes ge = true ->
 Proof. apply classifier_spec, ed_blacklist_rows. Qed.
 
 Theorem low_order_total ge : (length ge = 32)%nat -> exists b, is_ed_low_order ge = Ok b.
-Proof. apply classifier_total. Qed.
+Proof. intros H. unfold is_ed_low_order. apply classifier_total; [apply ed_blacklist_rows|exact H]. Qed.
 
 (* the sign bit really is ignored: flipping it never changes the answer *)
 Lemma clear_top_flip ge : (length ge = 32)%nat -> all_bytes ge = true ->
